@@ -81,6 +81,7 @@ func run(r *vh.Run, batch string) {
 		// dump of a dying child, so that the driver's tail still contains the
 		// 'fatal error:' line it classifies the death by
 		runtime.GOMAXPROCS(2)
+		limitAS(fuzzMemMB)
 	}
 	switch {
 	case strings.HasPrefix(batch, "log-"):
@@ -146,11 +147,23 @@ func replay(r *vh.Run, raw json.RawMessage) {
 	case "fuzz-block":
 		var b fuzzBlock
 		json.Unmarshal(raw, &b)
+		runtime.GOMAXPROCS(2)
+		limitAS(fuzzMemMB)
 		runFuzzBlock(r, b)
 	case "fuzz-input":
 		var in fuzzInput
 		json.Unmarshal(raw, &in)
+		runtime.GOMAXPROCS(2)
+		limitAS(fuzzMemMB)
 		replayInput(r, in)
+	case "trunc-block":
+		runtime.GOMAXPROCS(2)
+		limitAS(fuzzMemMB)
+		runTrunc(r)
+	case "wrap-block":
+		runtime.GOMAXPROCS(2)
+		limitAS(fuzzMemMB)
+		runWrap(r)
 	default:
 		r.Inconclusive("unknown case kind "+k.Kind, nil)
 	}
